@@ -1358,3 +1358,74 @@ def gen_nonacq(tier):
             names.append(nm)
             out.append(txt)
     return "\n".join(out), names
+
+
+# ------------------------------------------------------------------------------------------
+# sequences of two complete API calls over shapes that share locks (single-thread clause of C01, C03, C05)
+# ------------------------------------------------------------------------------------------
+def rename_shape_code(lines, suffix):
+    import re
+    out = []
+    for l in lines:
+        if l.strip() == "let u = universe();":
+            continue
+        l = re.sub(r"\b(i|l)(\d)\b", lambda m: ("j" if m.group(1) == "i" else "k") + m.group(2), l)
+        l = re.sub(r"\b(coll|tup|inner)\b", lambda m: m.group(1) + suffix, l)
+        out.append(l)
+    return out
+
+
+def call_stmts(shape, api, mode, blocking, style, coll="coll"):
+    """one complete API call (acquire + release) threading the key; returns statements"""
+    L = ["w().api_begin();"]
+    if style == "guard":
+        if blocking:
+            L.append("{ let g = %s; drop(g); }" % unwrap_pois(shape, "%s.%s(key())" % (coll, api)))
+        else:
+            if is_pois(shape):
+                L.append("match %s.%s(key()) { Ok(g) => drop(g), Err(crate::poisonable::TryLockPoisonableError::Poisoned(e)) => drop(e.into_inner()), Err(crate::poisonable::TryLockPoisonableError::WouldBlock(kb)) => drop(kb) }" % (coll, api))
+            else:
+                L.append("match %s.%s(key()) { Ok(g) => drop(g), Err(kb) => drop(kb) }" % (coll, api))
+    else:
+        if blocking:
+            L.append("%s.%s(key(), |_d| { user_point(1); });" % (coll, api))
+        else:
+            L.append("let _ = %s.%s(key(), |_d| { user_point(1); });" % (coll, api))
+    L.append("vcheck!(!w().held_any(), M_HELD_AT_KEY_BACK);")
+    L.append("vcheck!(key_is_back(), M_KEY_MODEL);")
+    return L
+
+
+def seq_entry(sa, ca, sb, cb, budget, idx):
+    L = ["w().reset(true);", "w().interference_left.set(%d);" % budget, "let u = universe();"]
+    L += [x for x in sa.setup if x.strip() != "let u = universe();"] + sa.build
+    L += rename_shape_code(sb.setup + sb.build, "b")
+    L += call_stmts(sa, *ca)
+    L += call_stmts(sb, *cb, coll="collb")
+    L += call_stmts(sa, *ca)
+    L += end_checks()
+    L.append("vreach!(3);")
+    nm = "seq%d_%s__%s__then__%s__%s" % (idx, sa.name, ca[0], sb.name, cb[0])
+    return nm, fn_wrap(nm, L)
+
+
+def gen_seq(tier, seed, count):
+    import random
+    from . import gen
+    rng = random.Random("seq/%s" % seed)
+    gen.FIXED_PICKS[0] = seed
+    try:
+        every = all_shapes(tier)
+    finally:
+        gen.FIXED_PICKS[0] = None
+    shapes = [s for s in every if s.setup and s.setup[0].strip() == "let u = universe();" and not s.name.startswith("n_")]
+    out = [HEADER]
+    names = []
+    budget = 2
+    for idx in range(count):
+        sa, sb = rng.choice(shapes), rng.choice(shapes)
+        ca, cb = rng.choice(apis_for(sa)), rng.choice(apis_for(sb))
+        nm, txt = seq_entry(sa, ca, sb, cb, budget, idx)
+        names.append(nm)
+        out.append(txt)
+    return "\n".join(out), names
